@@ -216,6 +216,20 @@ CLAIMED = {
              "ValueError in the Mexican-hat tree; floor/fmod disagreement in the C routine).",
         technique="Lean 4 proof (real analysis) over a hand-written model + tolerance-based differential correspondence + break-point oracle",
         ref="§5 C02"),
+    "C12": dict(
+        text="Lean 4 theorems (exact reading, any n>=1 members, any dimension) over a two-level model of the composite-object bookkeeping "
+             "(register leaf velocity change with the in-place scaling, commit with time-slice before the root velocity change, exchange, "
+             "pass, end of chain in leaf and root mode, both switcher directions, start, snap): RootConsistent (root velocity = weighted "
+             "sum of member velocities, absent iff all absent; root position advanced to any time = weighted barycentre of the members "
+             "with explicit image shifts) is preserved by every admissible event and hence by every run; the dipole and water creators' "
+             "geometry satisfies it initially. Correspondence: every recorded commit of every composite configuration (shipped + generated "
+             "+ small-speed variants) is classified and recomputed by the binary64 model bit for bit (positions, velocities, time stamps of "
+             "roots and leaves); creators bit for bit; oracle oracle_c12 on recorded states and on directly created molecules.",
+        note="Exact reading replaces the 1e-13 threshold by = 0 (stated in the file); float drift between a root and its members is "
+             "measured by the oracle (tolerance tied to run length), not bounded by a theorem. Admissibility hypotheses are the code's "
+             "asserts plus the one-chain fact of C07.",
+        technique="Lean 4 proof (invariant by induction) over a hand-written model + bit-exact replay of recorded real runs + run-level oracle",
+        ref="§5 C12, §4"),
 }
 
 PENDING_REASON = "check not built yet in this session (work in progress; see DESIGN.md §9 for the order)"
